@@ -1,5 +1,6 @@
 import itertools
 import logging
+import threading
 
 from bidict import bidict, ValueDuplicationError
 
@@ -18,6 +19,7 @@ class BaseManager:
         self.eio_to_sid = {}
         self.callbacks = {}
         self.pending_disconnect = {}
+        self._disconnect_lock = threading.Lock()
 
     def set_server(self, server):
         self.server = server
@@ -81,11 +83,19 @@ class BaseManager:
         This allows the client data structures to be present while the
         disconnect handler is invoked, but still recognize the fact that the
         client is soon going away.
+
+        Returns the Engine.IO session id of the client, or ``None`` if the
+        client is not connected or is already being disconnected.
         """
-        if namespace not in self.pending_disconnect:
-            self.pending_disconnect[namespace] = []
-        self.pending_disconnect[namespace].append(sid)
-        return self.rooms[namespace][None].get(sid)
+        with self._disconnect_lock:
+            # check and mark atomically: when several threads end the same
+            # connection only one of them gets to run the disconnect
+            if not self.is_connected(sid, namespace):
+                return None
+            if namespace not in self.pending_disconnect:
+                self.pending_disconnect[namespace] = []
+            self.pending_disconnect[namespace].append(sid)
+            return self.rooms[namespace][None].get(sid)
 
     def basic_disconnect(self, sid, namespace, **kwargs):
         if namespace not in self.rooms:
